@@ -13,7 +13,7 @@ class TimedMutex : public Mutex {
 
   template <typename Rep, typename Period>
   bool try_lock_for(const std::chrono::duration<Rep, Period>& timeout_duration) {
-    return TimedWaitHelper(timeout_duration);
+    return TimedWaitHelper(SystemClock::now() + timeout_duration);
   }
 
   template <typename Clock, typename Duration>
@@ -24,15 +24,13 @@ class TimedMutex : public Mutex {
  private:
   template <typename Timeout>
   bool TimedWaitHelper(const Timeout& timeout) {
-    bool r = true;
-    if (_occupied) {
-      r = _queue.Wait(timeout) == WaitStatus::Ready;
+    while (_occupied) {
+      if (_queue.Wait(timeout) != WaitStatus::Ready) {
+        return false;
+      }
     }
-    YACLIB_DEBUG(r && _occupied, "about to be locked twice");
-    if (r) {
-      _occupied = true;
-    }
-    return r;
+    _occupied = true;
+    return true;
   }
 };
 
